@@ -32,9 +32,11 @@ THEOREMS = ["undrop_restores (partial: side condition first_of_class)", "undrop_
 REFUTED = ["undrop_restores_refuted: with two spellings of one name in the holding directory dolt_undrop restores the one that sorts first, not the one dropped last under that name"]
 RULE = ("6-11 operations on the root database test and nested databases db1/db2 in three spellings each: CREATE DATABASE, content changes (committed rows, unstaged and staged changes, "
         "new branch with a commit, tag, dirty new branch), DROP DATABASE, dolt_undrop by any spelling, dolt_undrop of a backup generation, dolt_purge_dropped_databases; 10% of the "
-        "cases contain the two-spellings pattern; non-trivial = at least one successful undrop; distinct by case JSON")
+        "cases contain the two-spellings pattern, ~11% a burst of 3-6 create+drop generations of one name back to back (two consecutive drops within one wall-clock second) "
+        "followed by the restore of every generation, ~11% an undrop of a name with an upper-case letter while a live database differs only in case; three fixed cases "
+        "(refutation witness, burst, case variant) run first; non-trivial = at least one successful undrop; distinct by case JSON")
 ASSUMPTIONS = ["case-sensitive file system (Linux)", "DOLT_DBNAME_REPLACE unset"]
-REQUIRED_TAGS = ["drop-ok", "undrop-ok", "undrop-other-spelling", "undrop-refused-live", "undrop-nothing", "purge", "undrop-after-purge", "second-generation-aside",
+REQUIRED_TAGS = ["third-same-name-drop-within-a-second", "undrop-refused-live-case-variant", "drop-ok", "undrop-ok", "undrop-other-spelling", "undrop-refused-live", "undrop-nothing", "purge", "undrop-after-purge", "second-generation-aside",
                  "undrop-aside-ok", "root-dropped", "root-undropped", "dirty-restored", "branches-restored", "create-refused", "ops-in-between"]
 KNOWN_KEY = "undrop:case-variant-first-match"
 
@@ -65,15 +67,30 @@ def gen_one(rng):
                 {"k": "undrop", "n": rng.choice([a, b])}, {"k": "undrop", "n": rng.choice([a, b])}]
         return {"ops": ops}
     y = rng.random()
+    if y < 0.12:
+        # rapid repeated drop of one name: 3-4 generations back to back, then every generation restored by its (backup) name
+        x = _name(rng, rng.choice([1, 2]))
+        g = rng.choice([3, 3, 4])
+        ops += [{"k": "burst", "n": x, "g": g}, {"k": "undrop", "n": _name(rng, BASES.index(x.lower()), 0.5)}]
+        ops += [{"k": "undropx", "n": x} for _ in range(g)]
+        return {"ops": ops}
     if y < 0.24:
+        # a live database that differs only in case from a dropped one with an upper-case letter: undrop must refuse,
+        # and the live database must stay usable
+        a = rng.choice(spellings("db1")[:2])
+        b = rng.choice([x for x in spellings("db1") if x != a])
+        ops += [{"k": "create", "n": a}, mut(a), {"k": "drop", "n": _name(rng, 1, 0.3)}, {"k": "create", "n": b}, mut(b, [0, 1]),
+                {"k": "undrop", "n": rng.choice(spellings("db1"))}, mut(b, [0, 1])]
+        n = rng.randint(0, 2)
+    elif y < 0.42:
         # two generations of one exact name, then both restored (either order)
         x = _name(rng, rng.choice([1, 2]))
         ops += [{"k": "create", "n": x}, mut(x, [4, 5, 6]), {"k": "drop", "n": x}, {"k": "create", "n": x}, mut(x, [2, 3, 6]), {"k": "drop", "n": x}]
-        tail = [{"k": "undrop", "n": _name(rng, BASES.index(x.lower()), 0.5)}, {"k": "undropx", "n": x.lower()}]
+        tail = [{"k": "undrop", "n": _name(rng, BASES.index(x.lower()), 0.5)}, {"k": "undropx", "n": x}]
         rng.shuffle(tail)
         ops += tail
         n = rng.randint(0, 2)
-    elif y < 0.42:
+    elif y < 0.58:
         # the root database
         ops += [mut("test", [2, 3, 4, 5, 6]), {"k": "drop", "n": _name(rng, 0)}]
         if rng.random() < 0.4:
@@ -105,7 +122,7 @@ def gen_one(rng):
         elif x < 0.88:
             ops.append({"k": "undrop", "n": _name(rng, cls, 0.5)})
         elif x < 0.91:
-            ops.append({"k": "undropx", "n": spellings(BASES[cls])[2]})
+            ops.append({"k": "undropx", "n": _name(rng, cls, 0.7)})
         else:
             ops.append({"k": "purge"})
             if rng.random() < 0.6:
@@ -119,9 +136,17 @@ WITNESS = {"ops": [{"k": "create", "n": "Db1"}, {"k": "mut", "n": "Db1", "m": 0,
                    {"k": "undrop", "n": "db1"}, {"k": "undrop", "n": "db1"}]}
 
 
+# rapid repeated drop of one name; every generation restored afterwards
+CASE_BURST = {"ops": [{"k": "burst", "n": "db2", "g": 3}, {"k": "undrop", "n": "db2"}, {"k": "undropx", "n": "db2"}, {"k": "undropx", "n": "db2"},
+                      {"k": "undropx", "n": "db2"}]}
+# undrop of a name with an upper-case letter while a database differing only in case is live
+CASE_VARIANT = {"ops": [{"k": "create", "n": "Db2"}, {"k": "mut", "n": "Db2", "m": 0, "i": 1}, {"k": "drop", "n": "Db2"}, {"k": "create", "n": "db2"},
+                        {"k": "mut", "n": "db2", "m": 0, "i": 2}, {"k": "undrop", "n": "Db2"}, {"k": "mut", "n": "db2", "m": 1, "i": 3}]}
+
+
 def gen_cases(rng, tier):
-    n = 24 if tier == "quick" else 800
-    return [WITNESS] + [gen_one(rng) for _ in range(n)]
+    n = 22 if tier == "quick" else 800
+    return [WITNESS, CASE_BURST, CASE_VARIANT] + [gen_one(rng) for _ in range(n)]
 
 
 # ---- names ----
@@ -144,6 +169,11 @@ class Names:
 def _good(out):
     o = out.get("obs")
     return o is not None and not out.get("err") and not out.get("panic")
+
+
+def _steps(out):
+    """(operation, observation) pairs as the harness executed them (a burst is reported as its create / drop steps)"""
+    return [({"k": st["k"], "n": st.get("n", ""), "m": st.get("m", 0), "i": st.get("i", 0)}, st) for st in out["obs"]["steps"]]
 
 
 def _translate(case, out):
@@ -171,7 +201,7 @@ def _translate(case, out):
     obs = [ob(o["init"])]
     ops = []
     prev = o["init"]
-    for idx, (op, st) in enumerate(zip(case["ops"], o["steps"])):
+    for idx, (op, st) in enumerate(_steps(out)):
         k = op["k"]
         if k == "create":
             ops.append("Create (%d, %d) %d" % (nm.of(op["n"]) + (idx + 1,)))
@@ -200,7 +230,7 @@ def _sobs(x):
 
 
 def coq_case(case, out):
-    if not _good(out) or len(out["obs"]["steps"]) != len(case["ops"]):
+    if not _good(out) or (case["ops"] and not out["obs"]["steps"]):
         return "([Purge], [])"
     ops, obs = _translate(case, out)
     return "(%s, %s)" % (cq_list(ops), cq_list(_sobs(x) for x in obs))
@@ -216,7 +246,7 @@ def classify(case, out):
     purged = False
     dropped_at = {}      # lower-case name -> (index, mutation kinds before the drop)
     muts = {}
-    for idx, (op, st) in enumerate(zip(case["ops"], o["steps"])):
+    for idx, (op, st) in enumerate(_steps(out)):
         k, ok, msg = op["k"], st["ok"], st.get("msg", "")
         low = op.get("n", "").lower()
         if k == "create":
@@ -234,6 +264,8 @@ def classify(case, out):
                 tags.add("root-dropped")
             if any(".backup." in d and d not in prev["dropped"] for d in st["dropped"]):
                 tags.add("second-generation-aside")
+            if st.get("samesec"):
+                tags.add("third-same-name-drop-within-a-second")
             if len({d for d in st["dropped"] if d.lower() == low}) > 1:
                 tags.add("two-spellings-held")
         elif k == "undrop":
@@ -254,6 +286,10 @@ def classify(case, out):
                         tags.add("ops-in-between")
             elif "already exists" in msg:
                 tags.add("undrop-refused-live")
+                held = [d for d in prev["dropped"] if d.lower() == low and d != d.lower()]
+                livev = [d["name"] for d in prev["live"] if d["name"].lower() == low]
+                if held and livev and livev[0] not in held:
+                    tags.add("undrop-refused-live-case-variant")
             else:
                 tags.add("undrop-nothing")
                 if purged:
@@ -270,7 +306,7 @@ def classify(case, out):
 def nontrivial(case, out):
     if not _good(out):
         return False
-    return any(op["k"] in ("undrop", "undropx") and st["ok"] for op, st in zip(case["ops"], out["obs"]["steps"]))
+    return any(op["k"] in ("undrop", "undropx") and st["ok"] for op, st in _steps(out))
 
 
 # ---- known finding ----
@@ -285,7 +321,7 @@ def match_known(finding, case, out):
     pile = []        # most recent first
     prev = o["init"]
     deviation = False
-    for op, st in zip(case["ops"], o["steps"]):
+    for op, st in _steps(out):
         k, ok = op["k"], st["ok"]
         low = op.get("n", "").lower()
         plive = {d["name"]: d["fp"] for d in prev["live"]}
